@@ -139,6 +139,16 @@ func (m MethodScope) populateImports(t types.Type, imports map[string]*Package) 
 		for i := 0; i < t.NumEmbeddeds(); i++ {
 			m.populateImports(t.EmbeddedType(i), imports)
 		}
+
+	case *types.Union: // terms of a constraint, e.g. ~int | otherpackage.ID
+		for i := 0; i < t.Len(); i++ {
+			m.populateImports(t.Term(i).Type(), imports)
+		}
+
+	case *types.Basic:
+		if t.Kind() == types.UnsafePointer { // printed as unsafe.Pointer
+			imports["unsafe"] = m.registry.AddImport(types.Unsafe)
+		}
 	}
 }
 
